@@ -35,26 +35,11 @@ def _unit_ctor_args(call: ast.Call, unit_params: List[str]) -> Dict[str, ast.AST
     return out
 
 
-def analyse(src: Source) -> List[Report]:
-    rep = Report(ID, src)
-    rep.explain(
-        "R13.1: on everything reachable from extract_from_global_state / extract_active_global_state every Unit(...) gets "
-        "position, velocity and time stamp as copy(...) of the stored object (also through the copy_method parameter, whose "
-        "binding on this path is copy); the branch contains the ancestors (prefix loop), the node and all descendants "
-        "(recursive helper over children). R13.2: the consumers of the uncopied extract_global_state() -- OutputHandler.write "
-        "and InternalState.initialize implementations -- have no write effect on units derived from their state parameter. "
-        "R13.3: positions of global nodes are written only by PhysicalState.set, the lifting dictionaries only inside the "
-        "lifting state; both setters are called only by insert_into_global_state, which is called only from the commit step "
-        "of the run loops (and its own recursion). R13.4: insertion writes position, velocity and time stamp of every cnode "
-        "and recurses into its children. R13.5 handlers only mutate in-states stored for the current event. R13.6 a "
-        "velocity list handed from one unit to another is moved (source set to None in the same block) or copied. R13.7 "
-        "the independent-active rule yields the composite object iff all its members move, else the moving members.")
-    prog = Program(src)
+def check_extraction_copies(prog: Program, rep: Report):
+    """R13.1: every Unit built on the extraction path copies position, velocity and time stamp (also through helper parameters)."""
     sh = prog.class_named("TreeStateHandler")
     unit = prog.class_named("Unit")
     unit_params = param_names(unit.methods["__init__"])
-    file = sh.file
-    # ---- R13.1 ------------------------------------------------------------------------------------------------------
     entries = [FnRef(*prog.resolve_method(sh, m)) for m in ("extract_from_global_state", "extract_active_global_state")
                if prog.resolve_method(sh, m)]
     if len(entries) != 2:
@@ -83,6 +68,29 @@ def analyse(src: Source) -> List[Report]:
                 rep.ob("R13.1-copied-field", ok, loc, f"{ref.fn.name}: Unit.{fld} = {norm(a) if a is not None else None}",
                        f"a branch handed out for an identifier must not alias the stored {fld}: {why}")
     rep.unit("unit_constructions_on_extraction_path", n_units)
+    return entries
+
+
+def analyse(src: Source) -> List[Report]:
+    rep = Report(ID, src)
+    rep.explain(
+        "R13.1: on everything reachable from extract_from_global_state / extract_active_global_state every Unit(...) gets "
+        "position, velocity and time stamp as copy(...) of the stored object (also through the copy_method parameter, whose "
+        "binding on this path is copy); the branch contains the ancestors (prefix loop), the node and all descendants "
+        "(recursive helper over children). R13.2: the consumers of the uncopied extract_global_state() -- OutputHandler.write "
+        "and InternalState.initialize implementations -- have no write effect on units derived from their state parameter. "
+        "R13.3: positions of global nodes are written only by PhysicalState.set, the lifting dictionaries only inside the "
+        "lifting state; both setters are called only by insert_into_global_state, which is called only from the commit step "
+        "of the run loops (and its own recursion). R13.4: insertion writes position, velocity and time stamp of every cnode "
+        "and recurses into its children. R13.5 handlers only mutate in-states stored for the current event. R13.6 a "
+        "velocity list handed from one unit to another is moved (source set to None in the same block) or copied. R13.7 "
+        "the independent-active rule yields the composite object iff all its members move, else the moving members.")
+    prog = Program(src)
+    sh = prog.class_named("TreeStateHandler")
+    unit = prog.class_named("Unit")
+    unit_params = param_names(unit.methods["__init__"])
+    file = sh.file
+    entries = check_extraction_copies(prog, rep)
     efg = entries[0].fn
     prefix_loops = [n for n in efg.body if isinstance(n, ast.For) and isinstance(n.iter, ast.Call)
                     and norm(n.iter.func) == "range" and "len(identifier)" in norm(n.iter)]
